@@ -141,7 +141,7 @@ func cmdCheck(args []string) int {
 				FeasTimeoutMs: 10_000, IncTimeoutMs: 1000, AssertTimeoutMs: 120_000, Params: params, Solver: SolverZ3New, Witnesses: 6, StopOnViolation: true, Progress: *verbose, WallBudget: 20 * time.Minute}
 			if *tier == "thorough" {
 				cfg.Witnesses = 12
-				cfg.WallBudget = 6 * time.Hour
+				cfg.WallBudget = 40 * time.Minute
 				cfg.AssertTimeoutMs = 600_000
 			}
 			if v, ok := params["maxdepth"]; ok {
